@@ -80,7 +80,7 @@ def edge_spec(g, prof, eid, src, dst, kinds=None):
         e["delay"] = delay_spec(g, prof["zero_delays"])
     elif kind == "Fleet":
         e["capacity"] = 1 + g.n(4)
-        e["delay"] = g.pick([0.5, 1, 2, 1.3, 3])
+        e["delay"] = g.pick([0.5, 1, 2, 1.3, 3] + ([0, 0] if prof.get("fleet_zero_delay") else []))
         e["transit"] = g.pick([0, 0.5, 1, 0.3, 2])
     elif kind == "ContinuousConveyor":
         # flow items created by a Source have length 1 (its item_length default): conveyors in factories are
